@@ -19,12 +19,13 @@ from ..scen import REQ, RESP
 
 LEVEL = 'exploration'
 RULE = ('each case = one endpoint, s driven to open / half-closed(local) / half-closed(remote) / reserved(remote), optional '
-        'other traffic, E resets s, optionally 0-200 other streams are opened and closed (so s is cleaned up), then 1-50 racing '
-        'frames (incl. pushes on s and traffic on the promised streams, up to 120 kB of racing DATA) interleaved with fresh valid '
+        'other traffic, E resets s, optionally 0-200 other streams are opened and closed (so s is cleaned up), the local MAX_CONCURRENT_STREAMS default / 0 / small and saturated by open streams, then 1-50 racing '
+        'frames (incl. informational responses, pushes on s and traffic on the promised streams, up to 120 kB of racing DATA) interleaved with fresh valid '
         'messages on other streams that reference header fields introduced by the racing blocks; non-trivial = at least 3 '
         'racing frames delivered and judged; distinct = hash of the schedule')
 MINIMA = {'racing_frames_judged': 30000, 'racing_data_bytes_over_64k_cases': 100, 'racing_header_blocks': 3000,
-          'later_messages_header_checked': 3000, 'refused_push_cases': 300, 'after_cleanup_cases': 800, 'pad_flood_cases': 100}
+          'later_messages_header_checked': 3000, 'refused_push_cases': 300, 'after_cleanup_cases': 800, 'pad_flood_cases': 100,
+          'local_stream_limit_saturated_cases': 500, 'racing_informational_blocks': 200}
 
 
 def n_cases(tier):
@@ -33,7 +34,10 @@ def n_cases(tier):
 
 def run_case(idx, rng, tier, rep):
     e_client = rng.random() < 0.6
-    h = scen.Hostile(e_client, keep_log=True)
+    # E's own MAX_CONCURRENT_STREAMS: a client that allows no pushed streams, a server with a small limit that is then saturated
+    mcs = rng.choice([None, None, 0, 1] if e_client else [None, None, 1, 2, 3])
+    h = scen.Hostile(e_client, keep_log=True, e_settings=None if mcs is None else {wire.S_MAX_CONCURRENT_STREAMS: mcs})
+    saturated = [False]
     t = h.t
     enc = hpack.Encoder()          # the peer's real, indexing encoder
     sched = []
@@ -140,6 +144,22 @@ def run_case(idx, rng, tier, rep):
                     return
                 t.call('send_headers', o, RESP, end_stream=True)
         h.cleanup()
+    if mcs is not None:
+        rep.count('local_stream_limit_set_cases')
+        if not e_client:
+            # fill every slot with a request that stays open: racing frames must still be treated as racing frames
+            for _ in range(mcs):
+                o = h.peer_next
+                h.peer_next += 2
+                if deliver(wire.build_headers(o, pblock(REQ)), ('slot-filler', o), racing=False) is None:
+                    return
+            saturated[0] = True
+            if rng.random() < 0.5:
+                h.cleanup()
+        else:
+            saturated[0] = mcs == 0
+        if saturated[0]:
+            rep.count('local_stream_limit_saturated_cases')
     # ---- racing frames
     nrace = rng.choice([1, 3, 8, 20, 50])
     big_data = rng.random() < 0.35
@@ -197,6 +217,13 @@ def run_case(idx, rng, tier, rep):
             ff = fresh_fields()
             introduced.extend(ff)
             rep.count('racing_header_blocks')
+            if not got_headers and e_client and rng.random() < 0.4:
+                # an informational response racing the reset (100 Continue / 103 Early Hints)
+                rep.count('racing_informational_blocks')
+                if deliver(wire.build_headers(s, pblock([(b':status', rng.choice([b'100', b'103']))] + ff)), ('informational', s)) is None:
+                    return
+                judged += 1
+                continue
             if not got_headers:
                 blk = pblock(RESP + ff)
                 es = rng.random() < 0.3
@@ -266,7 +293,7 @@ def run_case(idx, rng, tier, rep):
                 ent[1] = 'ended'
                 judged += 1
         # a valid message on another stream that re-uses fields introduced by racing blocks
-        if introduced and rng.random() < 0.35 and st['alive']:
+        if introduced and rng.random() < 0.35 and st['alive'] and not (saturated[0] and not e_client):
             ref = [rng.choice(introduced) for _ in range(rng.randrange(1, 4))]
             if e_client:
                 o, r0 = h.e_request(end_stream=True)
